@@ -112,6 +112,11 @@ def ageSeconds (f : Freshness) (now : Int) : Int :=
 def setAgeHeader (h : Header) (f : Freshness) (now : Int) : Header :=
   Header.set h sAge (intToStr (ageSeconds f now))
 
+/-- the response is stale at `now` by the freshness the hit path computed (the age it had then plus the time
+    that has passed since) -/
+def staleAt (f : Freshness) (now : Int) : Bool :=
+  satAdd f.ageValue (satSub now f.ageTimestamp) ≥ f.usefulLife
+
 /-- staleIfErrorPolicy.CanStaleOnError over the given directive sources, in order -/
 def canStaleOnError (f : Freshness) (now : Int) (sources : List Directives) : Bool :=
   sources.any fun d => match d.staleIfError with
